@@ -136,3 +136,30 @@ Definition strips_classified_b : bool :=
 Definition requested_survive_b : bool :=
   forallb (fun o => forallb (fun k => negb (str_in k (run_stripped_keys [o]))) (requested_keys [o]))
           gen_buildmeta_options.
+
+(* ---------- the order of the build tail that ResMapModel.finalize assumes ---------- *)
+
+Definition tail_steps : list string :=
+  [ "MakeCustomizedResMap"; "AccumulateTarget"; "addHashesToNames"; "FixBackReferences"; "ResolveVars"; "IgnoreLocal";
+    "DropLocalNodes"; "Intersection"; "FromResourceSlice"; "applySortOrder"; "Transform";
+    "RemoveBuildAnnotations"; "RemoveOriginAnnotations"; "RemoveTransformerAnnotations" ].
+
+Definition only_tail_steps (l : list string) : list string := filter (fun c => str_in c tail_steps) l.
+
+Fixpoint str_list_eq (a b : list string) : bool :=
+  match a, b with
+  | [], [] => true
+  | x :: a', y :: b' => String.eqb x y && str_list_eq a' b'
+  | _, _ => false
+  end.
+
+(* makeCustomizedResMap: accumulate, hash names, fix references, resolve vars, IgnoreLocal — in this order;
+   IgnoreLocal: DropLocalNodes, then Intersection with the map FromResourceSlice builds;
+   Run: MakeCustomizedResMap, sort, (managed-by label transformer), then the three removals *)
+Definition tail_order_b : bool :=
+  str_list_eq (only_tail_steps gen_make_customized_calls)
+              ["AccumulateTarget"; "addHashesToNames"; "FixBackReferences"; "ResolveVars"; "IgnoreLocal"]
+  && str_list_eq (only_tail_steps gen_ignore_local_calls) ["DropLocalNodes"; "Intersection"; "FromResourceSlice"]
+  && str_list_eq (only_tail_steps gen_run_calls)
+              ["MakeCustomizedResMap"; "applySortOrder"; "Transform";
+               "RemoveBuildAnnotations"; "RemoveOriginAnnotations"; "RemoveTransformerAnnotations"].
